@@ -55,6 +55,57 @@ def classes_compatible(decl_cls, want):
     return True
 
 
+def scope_leg(chk):
+    """G: what a bare identifier denotes (Scope.tla) for every subset of the levels at which a name can be defined; the resolution the
+    translator made is read from the IR of the handler (observation hook) or from the diagnostic"""
+    from vlib import tlc, tlc_must_pass
+    g = tlc("GenScope", workers=1, timeout=600, coverage=False)
+    tlc_must_pass(g, "GenScope (IdWins, LocalWins, Total)")
+    chk.add_tlc(g)
+    cases = g.printed("SCOPE")
+    if len(cases) != 32:
+        raise ToolError("GenScope produced %d cases" % len(cases))
+    reqs, meta = [], []
+    for c in cases:
+        fam, d = c["fam"], set(c["defined"])
+        if fam == "global" and "global" not in d:
+            continue            # the global names cannot be undefined
+        name = {"property": "text", "parameter": "text", "method": "selectAll", "global": "console"}[fam]
+        me = {"property": "QLabel" if "property" in d else "QWidget", "parameter": "QLabel" if "property" in d else "QWidget",
+              "method": "QLineEdit" if "method" in d else "QLabel", "global": "QLabel"}[fam]
+        idobj = "  QLineEdit { id: %s }\n" % name if "id" in d else ""
+        use = {"property": "let seen = text", "parameter": "let seen = text", "method": "selectAll()", "global": 'console.log("x")'}[fam]
+        decl = {"property": 'let text = "l"; ', "method": "let selectAll = 1; ", "global": "let console = 1; "}.get(fam, "") if "local" in d else ""
+        if fam == "parameter" and "local" in d:
+            handler = "onWindowTitleChanged: function(text: QString) { %s }" % use
+        else:
+            handler = "onWindowTitleChanged: { %s%s }" % (decl, use)
+        qml = "import qmluic.QtWidgets\nQWidget {\n  id: root\n%s  %s {\n    id: me\n    %s\n  }\n}\n" % (idobj, me, handler)
+        reqs.append({"id": len(reqs), "src": qml, "type_name": "Doc", "modes": ["generate"], "ir": True})
+        meta.append((c, name))
+    res = translate(reqs, metatypes=[QT5_METATYPES, VERIF_T_METATYPES])
+    for q, (c, name) in zip(reqs, meta):
+        run_ = res[q["id"]]["generate"]
+        chk.count({"scope": c}, nontrivial=len(c["defined"]) >= 2)
+        msgs = [d["msg"] for d in run_.get("diags", []) if d["kind"] == "error"]
+        text = str([o["code"] for o in run_.get("ir", []) if o["obj"] == "me"])
+        if any("undefined reference" in m for m in msgs):
+            seen = "undefined"
+        elif c["fam"] in ("property", "parameter"):
+            seen = "property" if ("'k': 'rprop'" in text and "'name': '%s'" % name in text) else "id" if "'n': '%s'" % name in text else "local" if not msgs else "error"
+        elif c["fam"] == "method":
+            seen = "method" if ("'k': 'mcall'" in text and "'name': 'selectAll'" in text and not msgs) else "not callable" if msgs else "?"
+        else:
+            seen = "global" if ("'k': 'builtin'" in text and not msgs) else "not the console" if msgs else "?"
+        want = c["resolves"]
+        if c["fam"] in ("method", "global") and want in ("local", "id"):
+            want = "not callable" if c["fam"] == "method" else "not the console"        # the call on a variable / an object is then an error
+        if seen != want:
+            chk.violation("identifier `%s` defined as %s: resolves to %s in the translator, Scope.tla says %s" % (name, sorted(c["defined"]), seen, c["resolves"]),
+                          {"qml": q["src"], "diags": run_.get("diags"), "model": c})
+    chk.cov["scope_cases"] = len(reqs)
+
+
 def run(chk):
     build_harness()
     quick = chk.tier == "quick"
@@ -144,6 +195,7 @@ def run(chk):
         if probs:
             f1 = [p for p in probs if "declared" in p]
             chk.violation("names/references: %s" % "; ".join(probs[:3]), {"qml": qml, "ui": run_["ui"], "problems": probs, "header": run_.get("header")})
+    scope_leg(chk)
     chk.cov["model_naming_not_distinct"] = n_model_bad
     if n_model_bad:
         log("C10 M leg: repaired naming model yields duplicate names on %d trees" % n_model_bad)
